@@ -105,7 +105,25 @@ func collectFmtFragments(input string) ([]FmtDiff, error) {
 	fmter := &fmter{}
 	fmter.diffFile(fragments)
 
-	return fmter.fragments, nil
+	return mergeSharedLines(fmter.fragments), nil
+}
+
+// mergeSharedLines joins the output of fragments which share a source line,
+// e.g. "} // comment" or "} }", into a single replacement, so that the line
+// ranges handed to editors never overlap.
+func mergeSharedLines(in []FmtDiff) []FmtDiff {
+	out := make([]FmtDiff, 0, len(in))
+	for _, diff := range in {
+		if n := len(out); n > 0 && diff.FromLine < out[n-1].ToLine {
+			out[n-1].NewText += diff.NewText
+			if diff.ToLine > out[n-1].ToLine {
+				out[n-1].ToLine = diff.ToLine
+			}
+			continue
+		}
+		out = append(out, diff)
+	}
+	return out
 }
 
 type fmter struct {
